@@ -292,7 +292,8 @@ def check(tier: str) -> Result:
         vi.apply_func(init, self_c, ci, psi, {}, None, None)
         rej = False
         seen_tests = []
-        for fn_, node_, path_, _ in _rx(vi):
+        from .common import expanded_raise_exits as _erx
+        for fn_, node_, path_, _ in _erx(vi):
             for t_, pol_, pf_ in path_:
                 if not pol_:
                     continue
@@ -368,7 +369,10 @@ def check(tier: str) -> Result:
     found = {}
     fails = is_or = False
     bypass = []
-    for fn, node, path, _ in raise_exits(vb):
+    from .common import expanded_raise_exits
+    n_paths_with_bound = 0
+    for fn, node, path, _ in expanded_raise_exits(vb):
+        path_has_bound = False
         for t, pol, pf in path:
             if not pol:
                 continue
@@ -389,7 +393,10 @@ def check(tier: str) -> Result:
                     if bound:
                         got[bound] = (op, red)
             if got:
-                found, fails, is_or = got, True, len(ds) == 2
+                path_has_bound = True
+                found = {**found, **got}
+                fails = True
+                is_or = is_or or len(ds) == 2
                 # every other condition on the way to this raise must be one of the parent's (non-rejecting) mismatch
                 # tests: an extra own condition means some values skip the bounds test altogether
                 extra = []
@@ -400,9 +407,21 @@ def check(tier: str) -> Result:
                         sides = [strip_cast(t2.args[1]), strip_cast(t2.args[2])]
                         if any(x.kind == "attr" and x.args[0] is self_b for x in sides) and any(x.kind == "attr" and x.args[0] is not self_b and contains(x, valb) for x in sides):
                             continue
-                    if pf2 is bv and (contains(t2, self_b) or contains(t2, valb)):
+                    # the complement of the other bound test (second return path of a two-step helper) restricts nothing
+                    c2 = strip_cast(t2)
+                    while ext_name(c2) in ("jax.numpy.any", "numpy.any", "builtins.any", "builtins.bool") and c2.args[1]:
+                        c2 = strip_cast(c2.args[1][0])
+                    if c2.kind == "call" and c2.args[0].kind == "attr" and c2.args[0].args[1] == "any" and not c2.args[1]:
+                        c2 = strip_cast(c2.args[0].args[0])
+                    if not pol2 and c2.kind == "cmp" and any(x.kind == "attr" and x.args[0] is self_b and pubname(x.args[1]) in ("minimum", "maximum") for x in (strip_cast(c2.args[1]), strip_cast(c2.args[2]))):
+                        continue
+                    if (pf2 is bv or True) and (contains(t2, self_b) or contains(t2, valb)):
                         extra.append((t2, pol2))
-                bypass = extra
+                bypass = bypass + extra
+        if path_has_bound:
+            n_paths_with_bound += 1
+    if n_paths_with_bound >= 2 and set(found) == {"minimum", "maximum"}:
+        is_or = True        # two raising paths, one per bound
     res.add("C16.R4", bv.loc(), "specs.BoundedArray.validate", "raises iff any(value < minimum) or any(value > maximum) (inclusive bounds)",
             found.get("minimum") == ("<", True) and found.get("maximum") == (">", True) and fails and is_or,
             f"comparators {found}; joined by or: {is_or}; leads to failure: {fails}")
@@ -845,6 +864,10 @@ def eq_facts_vfg(tree, ci: ClassInfo, eq: FuncInfo):
             return
         if t.kind == "choice":
             for x in t.args[2]:
+                walk(x, truth_ctx)
+            walk(t.args[1], True)
+        if t.kind == "phi":        # the value of a helper with several returns
+            for x in t.args[0]:
                 walk(x, truth_ctx)
 
     for a in alts:
